@@ -770,6 +770,10 @@ def report(prop, tier, seed, results, extras, wall, rebaseline, replay):
         for kind, name, ln in u.trusted:
             trusted.append('%s: %s %s' % (u.name, kind, name))
         mustfail[u.name] = u.mustfail
+        for r in getattr(getattr(u, 'gen', None), 'fns', []):
+            if getattr(r, 'renamed', None):
+                print('NOTE unit=%s %s: locals renamed since the baseline (%s); the contracts follow the new names' % (
+                    u.name, r.qual, ', '.join('%s -> %s' % kv for kv in sorted(r.renamed.items()))))
         if getattr(u, 'auto_stubs', None):
             trusted.append('%s: AUTO-STUBBED callees without contract: %s' % (u.name, ', '.join(u.auto_stubs)))
             print('NOTE unit=%s callees not known to the unit were stubbed without a contract: %s' % (u.name, ', '.join(u.auto_stubs)))
@@ -862,7 +866,9 @@ def report(prop, tier, seed, results, extras, wall, rebaseline, replay):
                                # text hashes of what the unit extracts: a proof that cannot be attempted although none of them
                                # changed is a fault of the machinery, never a reason to fall back to the replay
                                sha={fr['fn']: fr.get('sha256_16') for fr in u.functions_total if fr.get('sha256_16')},
-                               items={'%s %s' % (it['kind'], it['name']): it['sha'] for it in getattr(getattr(u, 'gen', None), 'items', [])})
+                               items={'%s %s' % (it['kind'], it['name']): it['sha'] for it in getattr(getattr(u, 'gen', None), 'items', [])},
+                               # names bound by `let` in each function, in order: a later run maps renamed locals onto the contracts
+                               lets={r.qual: r.lets for r in getattr(getattr(u, 'gen', None), 'fns', []) if not r.renamed})
         # vacuity / count floor
         b = baseline.get(u.name)
         if b and u.status == 'ok' and u.verified_total + getattr(u, 'not_owned', 0) < b.get('verified', 0) and not rebaseline:
